@@ -144,6 +144,12 @@ theorem C09_removal_costs (P : Sem.Params) (n : Sem.Sig) (s : Stm) (hav : stmAvo
   unused_costs P n s hav T T' hag x
 
 open Proofs.C09sem in
+/-- **the display is kept**: a `#show t : B.` statement that does not mention `n/k` shows the same terms -/
+theorem C09_removal_shown (P : Sem.Params) (n : Sem.Sig) (s : Stm) (hav : stmAvoids n s = true) (T T' : Sem.Interp)
+    (hag : Sem.AgreeOffName n T T') (x : Sym) : shownTerms P T s x ↔ shownTerms P T' s x :=
+  unused_shown P n s hav T T' hag x
+
+open Proofs.C09sem in
 /-- the side condition survives the removal of another predicate's rules: the step can be iterated -/
 theorem C09_unused_keep (n m : String) (k j : Nat) (prg : Prog) (h : Unused n k prg) : Unused n k (keep m j prg) :=
   fun s hs => h s (List.mem_filter.mp hs).1
